@@ -9,6 +9,7 @@ import (
 	"errors"
 	"io"
 	"net"
+	"sync"
 	"time"
 )
 
@@ -24,11 +25,16 @@ type envTrunk struct {
 	failWrite int // fail the k-th Write call (1-based; 0 = never) after an arbitrary prefix
 	wrote    int
 	readErr  error // returned instead of EOF at the end when set
+	mu       *sync.Mutex // when set, Write calls are atomic and scheduling points (as on a socket)
 }
 
 var errTrunk = errors.New("trunk failure")
 
 func (t *envTrunk) Write(b []byte) (int, error) {
+	if t.mu != nil {
+		t.mu.Lock()
+		defer t.mu.Unlock()
+	}
 	t.wrote++
 	if t.closed > 0 {
 		return 0, net.ErrClosed
